@@ -7,6 +7,7 @@ import (
 	"fmt"
 	"io"
 	"os"
+	"runtime/debug"
 	"sort"
 	"strings"
 	"testing"
@@ -110,6 +111,8 @@ type dbHarness struct {
 	delays         int
 	extStore       remote.Storage // external object store (survives crashes: it is remote)
 	faultAnnounced bool
+	moveFaultLog   int  // disk log length right after a failed dirsync inside Marker.Move under UpdateVersionLocked (0: none)
+	dyingWindow    bool // the previous incarnation changed the disk while such a panic was unwinding
 	opening        bool // pebble.Open of the current incarnation is running
 	openFailed     bool // ... has returned an error
 }
@@ -208,6 +211,9 @@ func (l simLogger) Errorf(format string, args ...interface{}) {
 func (l simLogger) Fatalf(format string, args ...interface{}) {
 	msg := fmt.Sprintf(format, args...)
 	inc := simrt.CurInc()
+	if os.Getenv("VERIF_DEBUG") != "" {
+		fmt.Fprintf(os.Stderr, "[seg %d] Fatalf (incarnation %v, fault fired %v): %s\n", l.h.segment, inc != nil, inc != nil && inc.FaultFired, msg)
+	}
 	if inc != nil && inc == l.h.rotInc {
 		// Pebble gives up on a damaged file: loud, not silent
 		l.h.count("rot.fatalf", 1)
@@ -335,7 +341,12 @@ func (h *dbHarness) makeOptionsOn(disk *simfs.Disk) *pebble.Options {
 	if os.Getenv("VERIF_DEBUG") == "2" {
 		l := pebble.TeeEventListener(*o.EventListener, pebble.MakeLoggingEventListener(debugLogger{h}))
 		o.EventListener = &l
-		simfs.DebugFaults = func(s string) { fmt.Fprintf(os.Stderr, "[seg %d] %s\n", h.segment, s) }
+		simfs.DebugFaults = func(s string) {
+			fmt.Fprintf(os.Stderr, "[seg %d] %s\n", h.segment, s)
+			if os.Getenv("VERIF_DEBUG_STACKS") != "" {
+				fmt.Fprintf(os.Stderr, "%s\n", debug.Stack())
+			}
+		}
 	}
 	return o
 }
@@ -404,6 +415,17 @@ func (h *dbHarness) root() {
 				fmt.Fprintln(os.Stderr, "VERIF: injected fault fired")
 			}
 		}
+		h.moveFaultLog = 0
+		h.disk.OnFaultOp = func(kind simfs.OpKind, p string) {
+			if kind != simfs.OpSyncDir {
+				return
+			}
+			if st := string(debug.Stack()); strings.Contains(st, "atomicfs.(*Marker).Move") && strings.Contains(st, "UpdateVersionLocked") {
+				// Marker.Move panics on this error (documented fail-stop) in the
+				// middle of a version update; see the use of moveFaultLog
+				h.moveFaultLog = h.disk.LogLen() + 1
+			}
+		}
 		if h.crashOpen > 0 {
 			h.disk.CrashAt = h.crashOpen
 			h.crashOpen = 0
@@ -435,6 +457,14 @@ func (h *dbHarness) root() {
 			return
 		}
 		h.count("crashes", 1)
+		if h.moveFaultLog > 0 && h.disk.LogLen() >= h.moveFaultLog {
+			// Between the failed directory sync inside Marker.Move (whose panic
+			// unwinds through UpdateVersionLocked, releasing the manifest lock
+			// with the version set half updated) and the death of the process,
+			// other jobs of this incarnation changed the disk.
+			h.dyingWindow = true
+			h.count("failstop.disk_mutations_while_marker_move_panic_unwinds", 1)
+		}
 		// Main-line crash: continue on a crash image of the disk as it is now.
 		if h.pendingCtx == nil {
 			h.pendingCtx = h.crashCtxAt(h.disk.LogLen())
@@ -480,6 +510,14 @@ func (h *dbHarness) drive() {
 			fmt.Fprintln(os.Stderr)
 			debugDumpWALs(h)
 		}
+		if h.dyingWindow && strings.Contains(err.Error(), "TableBacking for virtual sstable must not be nil") {
+			// recorded finding (KNOWN_FINDINGS.jsonl, DESIGN.md 12.4): a version
+			// edit written by another job while a Marker.Move panic was
+			// unwinding lacks a virtual backing
+			h.addKnown("C43:version-edit-persisted-while-marker-move-panic-unwinds")
+			h.count("err.open.known", 1)
+			return
+		}
 		if h.pendingCtx != nil && !h.inc.FaultFired {
 			Violation("recovery", "Open failed after a crash whose only fault is loss of unsynced data: %v", err)
 		}
@@ -493,6 +531,7 @@ func (h *dbHarness) drive() {
 		return
 	}
 	h.db = db
+	h.dyingWindow = false
 	if h.plan.Profile == "files" {
 		h.disk.OnRemove = h.onRemove
 	}
